@@ -13,7 +13,7 @@ sys.path.insert(0, os.path.dirname(HERE))
 
 def main():
     path = sys.argv[1]
-    repo = "/repo"
+    repo = os.environ.get("VERIF_REPO", "/repo")
     if "--repo" in sys.argv:
         repo = sys.argv[sys.argv.index("--repo") + 1]
     with open(path, encoding="utf-8") as f:
